@@ -113,6 +113,11 @@ def hostile_cbor():
         bytes.fromhex("7f6161ff"), bytes.fromhex("5f4101ff"), bytes.fromhex("bf0001ff"),
         bytes.fromhex("a2010101 02".replace(" ", "")), bytes.fromhex("a1f90000 00".replace(" ", "")), bytes.fromhex("a18000"),
     ]
+    # floating-point values in every width incl. NaN, infinities, negative zero, subnormals; decimal fractions / bigfloats with NaN-like payloads
+    for f in ("f97e00", "f97c00", "f9fc00", "f98000", "f90001", "f93e00", "fa7fc00000", "fa7f800000", "fa3fc00000", "fb7ff8000000000000", "fb7ff0000000000000", "fb3ff8000000000000", "fb0000000000000001",
+              "f97e01", "fa7fc00001", "fb7ff8000000000001", "fbfff8000000000000"):
+        b = bytes.fromhex(f)
+        out += [b, b"\xa1\x61\x78" + b, b"\x81" + b, b"\xa1\x61\x78\x82" + b + b]
     # bignums (tags 2 / 3) of growing size, bare and as a map value: integers far beyond what the interpreter converts to text by default
     import struct
     def bstr(n):
